@@ -13,6 +13,15 @@ Next == /\ Len(hist) < MaxLines
 Spec == Init /\ [][Next]_vars
 View == <<okeys, mat, pair, dflt, cut, dmat, dpair, dcut, err>>
 Table(f(_, _)) == [a \in Keys |-> [b \in Keys |-> f(a, b)]]
+(* edge witnesses: every (state, line) transition is emitted with the tables AFTER the line, so that hidden
+   implementation state (caches) that the abstract state does not distinguish is still driven through every
+   line-after-state combination *)
+TableP(f(_, _)) == [a \in Keys |-> [b \in Keys |-> f(a, b)]]
+DeclMatP(a, b) == dmat'[U(a, b)]
+DeclPairP(a, b) == IF dpair'[U(a, b)] = NoneP THEN dflt' ELSE dpair'[U(a, b)]
+EmitStep == PrintT(ToJson([h |-> hist', err |-> err', mat |-> TableP(DeclMatP), pair |-> TableP(DeclPairP),
+                           dflt |-> dflt', cut |-> dcut']))
+EdgeSpec == Init /\ [][Next /\ EmitStep]_vars
 EmitInv == Emit => PrintT(ToJson([h |-> hist, err |-> err,
                                   mat |-> Table(DeclMat), pair |-> Table(DeclPair),
                                   dflt |-> dflt, cut |-> dcut]))
